@@ -151,6 +151,55 @@ theorem C06_shape_factory {cfg : Cfg} {env : Env} {r : Response} {o : Reported}
   obtain ⟨cf, p, _, hv, a0, rest, _, _, hused, _, _⟩ := processFactory_identity_inv h
   exact shapeOk_of_verify hv hused
 
+/-- Correlation for the third entry point, `response_factory(...)` + `verify()` (after fix f342ca56 its second load
+    is `AuthnResponse.loads`): over a browser binding, unless unsolicited Responses are allowed, identity ⇒ the
+    Response's InResponseTo is an outstanding request, every confirmation InResponseTo of every visible assertion
+    equals it, and the reported `came_from` is the one stored under it. -/
+theorem C06_correlated_respfactory {cfg : Cfg} {env : Env} {r : Response} {o : Reported}
+    (h : processRespFactory cfg env r = .identity o) (hasync : env.asynchop = true) (huns : cfg.allowUnsolicited = false) :
+    ∃ i cf, r.inResponseTo = some i ∧ env.outstanding.lookup i = some cf ∧ o.cameFrom = some cf ∧
+      ∀ a ∈ visible r, ∀ s, a.subject = some s → ∀ sc ∈ s.confs, ∀ d, sc.data = some d → d.irt = some i :=
+  C06_correlated_factory (processRespFactory_identity h).2 hasync huns
+
+/-- Status, version and shape for `response_factory(...)` + `verify()`. -/
+theorem C06_shape_respfactory {cfg : Cfg} {env : Env} {r : Response} {o : Reported}
+    (h : processRespFactory cfg env r = .identity o) : shapeOk r = true :=
+  C06_shape_factory (processRespFactory_identity h).2
+
+/-- The decidable specification the driver evaluates holds of the model of this entry point. -/
+theorem C06_model_meets_spec_respfactory (cfg : Cfg) (env : Env) (r : Response) :
+    specC06 cfg env r (processRespFactory cfg env r) = true := by
+  unfold specC06
+  cases hres : processRespFactory cfg env r with
+  | noIdentity => rfl
+  | rejected e => rfl
+  | identity o =>
+    simp only [Bool.and_eq_true]
+    refine ⟨C06_shape_respfactory hres, ?_⟩
+    unfold correlated
+    cases hasync : env.asynchop with
+    | false => simp
+    | true =>
+      cases huns : cfg.allowUnsolicited with
+      | true => simp
+      | false =>
+        obtain ⟨i, cf, hi, hlk, hcf, hall⟩ := C06_correlated_respfactory hres hasync huns
+        simp only [Bool.not_true, Bool.false_or, hi, Option.bind_some, hlk, hcf, beq_self_eq_true, Bool.true_and]
+        apply List.all_eq_true.mpr
+        intro a ha
+        simp only [Bool.or_eq_true]
+        right
+        unfold scIrtsEqual
+        cases hs : a.subject with
+        | none => rfl
+        | some s =>
+          simp only
+          apply List.all_eq_true.mpr
+          intro sc hsc
+          cases hd : sc.data with
+          | none => rfl
+          | some d => simp [hall a ha s hs sc hsc d hd, hi]
+
 theorem C06_status {cfg : Cfg} {env : Env} {r : Response} {o : Reported}
     (h : process cfg env r = .identity o) : r.statusTop = "urn:oasis:names:tc:SAML:2.0:status:Success" := by
   have := C06_shape h
@@ -347,5 +396,17 @@ example : process okCfg okEnv { okResp with assertions := [encIdAssertion false]
 example : processFactory okCfg okEnv { okResp with assertions := [encIdAssertion false] } = .rejected .idUndecryptable := by decide
 example : (processRespFactory okCfg okEnv { okResp with assertions := [{ encIdAssertion true with encrypted := true }] }).isIdentity = true := by decide
 example : processRespFactory okCfg okEnv { okResp with assertions := [{ encIdAssertion false with encrypted := true }] } = .rejected .idUndecryptable := by decide
+
+/-! Non-vacuity for `response_factory(...)` + `verify()`: the correlated Response is accepted with the stored request
+    context; the three uncorrelated shapes the entry point accepted before fix f342ca56 (Response InResponseTo unknown /
+    another outstanding request's / absent, while the bearer confirmation names an outstanding request) are refused;
+    with unsolicited Responses allowed they pass (the hypothesis `allowUnsolicited = false` is needed). -/
+example : processRespFactory okCfg okEnv okResp = .identity
+  { nameId := some "n", issuer := "", cameFrom := some "/x", notOnOrAfter := 200, sessionIndex := some "s", cached := false } := by decide
+example : processRespFactory okCfg okEnv { okResp with inResponseTo := some "r9" } = .rejected .unsolicited := by decide
+example : processRespFactory okCfg okEnv { okResp with inResponseTo := some "r0" } = .rejected .unsolicited := by decide
+example : processRespFactory okCfg okEnv { okResp with inResponseTo := none } = .rejected .unsolicited := by decide
+example : (processRespFactory { okCfg with allowUnsolicited := true } okEnv { okResp with inResponseTo := some "r9" }).isIdentity = true := by decide
+example : processRespFactory okCfg okEnv { okResp with sig := .corrupted } = .rejected .sigBadResponse := by decide
 
 end C06
